@@ -413,7 +413,9 @@ class Engine(object):
         """Class(...) : allocate the object, then the constructor's contract"""
         r, h = path.heap.new()
         path.heap = h
-        ty = {'DiGraph': 'graph', 'Kripke': 'kripke'}[cls]
+        ty = {'DiGraph': 'graph', 'Kripke': 'kripke', 'OBDD': 'obdd'}[cls]
+        if ty == 'obdd':
+            path.heap = path.heap.with_(b_node=z3.Store(path.heap['b_node'], r, z3.BoolVal(False)))
         obj = SV(ty, r)
         self.call_contract(ex, cls + '.__init__', [obj] + args, kwargs, path, e)
         return obj
